@@ -105,6 +105,7 @@ type Enc struct {
 	sawHypAll    bool
 	noSkolem     bool
 	skolemBounds map[string][2]string
+	skolemOf     map[string]string // plain goal -> skolemised goal
 	insts        []instantiator
 }
 
@@ -605,6 +606,39 @@ func (e *Enc) computeNonEscaping() {
 					return false
 				}
 			case *ssa.DebugRef:
+			case *ssa.MakeClosure:
+				// captured by a closure that is only ever called from this function, has a contract (so that its
+				// frame is what the contract says), and itself only loads from / stores to the variable
+				fn, _ := x.Fn.(*ssa.Function)
+				if fn == nil || depth > 0 {
+					return false
+				}
+				if ct := e.contractFor(funcKey(fn)); ct == nil || noFrameClaimed(ct) || ct.ModHeap {
+					return false
+				}
+				if crefs := x.Referrers(); crefs != nil {
+					for _, cr := range *crefs {
+						switch c := cr.(type) {
+						case *ssa.Call:
+							if c.Call.Value != x {
+								return false
+							}
+							for _, a := range c.Call.Args {
+								if a == x {
+									return false
+								}
+							}
+						case *ssa.DebugRef:
+						default:
+							return false
+						}
+					}
+				}
+				for i, bnd := range x.Bindings {
+					if bnd == v && i < len(fn.FreeVars) && !okUse(fn.FreeVars[i], depth+1) {
+						return false
+					}
+				}
 			default:
 				return false
 			}
@@ -1051,7 +1085,10 @@ func (e *Enc) oblige(kind, anchor string, pos token.Pos, reach, cond, descr stri
 		p := e.P.Prog.Fset.Position(pos)
 		o.Pos = fmt.Sprintf("%s:%d", relPath(p.Filename, e.P.Dir), p.Line)
 	}
-	o.SMT = e.query(e.curBlock, and(reach, e.instancesFor(cond), not(cond)))
+	o.SMT = e.query(e.curBlock, and(reach, not(cond)))
+	if sk, ok := e.skolemOf[cond]; ok {
+		o.SMTAlt = e.query(e.curBlock, and(reach, e.instancesFor(sk), not(sk)))
+	}
 	o.RC = e.replayCtx()
 	e.obls = append(e.obls, o)
 }
